@@ -598,7 +598,7 @@ fn wrap_emit(rng: &mut Rng, e: Value) -> Value {
 }
 
 /// one random project; `adversarial` lifts the SafeProject restrictions
-pub fn random_project(rng: &mut Rng, nfiles: usize, adversarial: bool) -> Value {
+pub fn random_project(rng: &mut Rng, nfiles: usize, adversarial: bool, externs: &[&str]) -> Value {
     let dirs = ["", "commands/", "models/", "a/b/c/", "target_x/", "x.target/"];
     let mut type_names: Vec<String> = Vec::new();
     let mut items_per_file: Vec<Vec<Value>> = vec![Vec::new(); nfiles];
@@ -655,6 +655,10 @@ pub fn random_project(rng: &mut Rng, nfiles: usize, adversarial: bool) -> Value 
         if serde {
             type_names.push(name);
         }
+    }
+    // names of types that are *not* defined in the project (they are only legal input when the configuration maps them)
+    for e in externs {
+        type_names.push(e.to_string());
     }
     let ev_names: Vec<&str> = if adversarial {
         vec!["user-updated", "sync_done", "task:progress", "a/b", "x", "user-updated", "Mixed-Case_1"]
@@ -841,14 +845,15 @@ pub fn run(out: &mut crate::out::Out, tier: &str, rng: &mut Rng) {
     for i in 0..n {
         let nfiles = 1 + rng.below(5);
         let adversarial = i % 3 == 2;
-        let p = random_project(rng, nfiles, adversarial);
+        let externs: &[&str] = if i % 5 == 4 { &["PathBuf", "Uuid"] } else { &[] };
+        let p = random_project(rng, nfiles, adversarial, externs);
         for mode in ["none", "zod"] {
             let cfg = match i % 5 {
                 0 => json!({"mode": mode}),
                 1 => json!({"mode": mode, "mappings": {"User0": "string"}}),
                 2 => json!({"mode": mode, "param_case": "snake_case"}),
                 3 => json!({"mode": mode, "field_case": "camelCase"}),
-                _ => json!({"mode": mode, "mappings": {"PathBuf": "string", "Item1": "number"}}),
+                _ => json!({"mode": mode, "mappings": {"PathBuf": "string", "Item1": "number", "Uuid": "string"}}),
             };
             out.case("project", json!({"project": p, "config": cfg}), json!({"gen": if adversarial { "adv" } else { "safe" }, "nfiles": nfiles}));
         }
